@@ -14,12 +14,14 @@ type CodeWriter struct {
 	IndentString    string
 	WriteSemicolons bool
 
-	pendings []rune
-	last     byte // last byte written, used to keep adjacent operators apart
+	pendings    []rune
+	last        byte // last byte written, used to keep adjacent operators apart
+	semiOmitted bool // an optional semicolon was left out and nothing has been written since
 }
 
 // WriteString writes a string to the buffer
 func (cw *CodeWriter) WriteString(s string) {
+	cw.restoreSemi(s)
 	cw.flushPending()
 	cw.Builder.WriteString(s)
 	if len(s) > 0 {
@@ -33,6 +35,7 @@ func (cw *CodeWriter) WriteString(s string) {
 
 // WriteRune writes a rune to the buffer
 func (cw *CodeWriter) WriteRune(r rune) {
+	cw.restoreSemi(string(r))
 	cw.flushPending()
 	cw.Builder.WriteRune(r)
 	cw.last = byte(r)
@@ -70,6 +73,33 @@ func (cw *CodeWriter) WriteSemi() {
 	}
 	if cw.WriteSemicolons {
 		cw.WriteRune(';')
+		return
+	}
+	cw.semiOmitted = true
+}
+
+// restoreSemi writes the semicolon that WriteSemi left out when the text that follows would
+// otherwise continue the previous statement (or, for `else`, would not parse at all).
+func (cw *CodeWriter) restoreSemi(next string) {
+	if !cw.semiOmitted {
+		return
+	}
+	cw.semiOmitted = false
+	if next == "" {
+		return
+	}
+	switch next[0] {
+	case '(', '[', '`', '+', '-', '/':
+	case ';': // comments follow (see WriteLeadingComments): the next token is not known yet
+	default:
+		if !strings.HasPrefix(next, " else") {
+			return
+		}
+	}
+	cw.Builder.WriteByte(';')
+	cw.last = ';'
+	if cw.Mapper != nil {
+		cw.Mapper.AdvanceColumn(1)
 	}
 }
 
